@@ -338,6 +338,11 @@ func TestC17(t *testing.T) {
 					w.initProvider(p, "https://again.dom"+fmt.Sprint(p.Index)+".org")
 				}
 			},
+			"governance": func(rt *rapid.T) { // a parameter change: another proof window / check interval for files posted from now on
+				nw, nc := rapid.Int64Range(2, 12).Draw(rt, "newProofWindow"), rapid.Int64Range(2, 6).Draw(rt, "newCheckWindow")
+				w.setParams(func(p *storagetypes.Params) { p.ProofWindow, p.CheckWindow = nw, nc })
+				w.logf("governance sets ProofWindow=%d CheckWindow=%d", nw, nc)
+			},
 			"advance": func(rt *rapid.T) {
 				n := rapid.IntRange(1, int(W)+2).Draw(rt, "blocks")
 				for i := 0; i < n; i++ {
